@@ -319,6 +319,8 @@ func execOp(s *Sexp) string {
 		return execDesc(s)
 	case "sched":
 		return execSched(s)
+	case "desccalls":
+		return execDescCalls(s)
 	case "descjson":
 		return execDescJSON(s)
 	case "jsonout":
